@@ -1,7 +1,275 @@
-//! C30 — not implemented yet.
+//! C30 — composite aggregation paging is complete.
+//! Engine: inputmc composite — C12 worlds (every corpus x every segment layout + deletion
+//! variants) x 3 queries x 8 source lists (terms / histogram over keyword, f64 and i64 fields,
+//! interval 1 and 2) x page size 1..5.  Oracle: the pages obtained by feeding `after_key` back as
+//! `after`, concatenated, are the buckets of one size = 10000 request (keys, order, counts,
+//! sub-aggregations); every page that carries an `after_key` is non-empty and no longer than the
+//! page size; the walk ends (after_key absent) and the unpaged request has no after_key.
+
+use std::collections::{BTreeMap, BTreeSet};
+
+use rayon::prelude::*;
+use searchlite_core::api::types::{Aggregation, AggregationResponse, BucketResponse, CompositeAggregation, CompositeSource, SearchRequest};
+use searchlite_core::api::IndexReader;
+use serde_json::{json, Value};
+
+use vcore::ev::Reporter;
+use vcore::inp::*;
+
+use crate::c12::{c12_queries, corpora, diff, layout_groups, mk_world, replay_with, QSpec};
 use crate::Ctx;
 
-pub fn run(_ctx: &Ctx) -> i32 {
-  eprintln!("C30: check not implemented");
-  2
+#[derive(Clone)]
+struct Cfg {
+  name: &'static str,
+  sources: Vec<CompositeSource>,
+}
+
+fn configs() -> Vec<Cfg> {
+  let t = |name: &str, field: &str| CompositeSource::Terms { name: name.into(), field: field.into() };
+  let h = |field: &str, interval: f64| CompositeSource::Histogram { name: "h".into(), field: field.into(), interval };
+  vec![
+    Cfg { name: "[terms kw]", sources: vec![t("k", "kw")] },
+    Cfg { name: "[hist f/1]", sources: vec![h("f", 1.0)] },
+    Cfg { name: "[hist f/2]", sources: vec![h("f", 2.0)] },
+    Cfg { name: "[hist n/1]", sources: vec![h("n", 1.0)] },
+    Cfg { name: "[hist n/2]", sources: vec![h("n", 2.0)] },
+    Cfg { name: "[terms kw, hist f/1]", sources: vec![t("k", "kw"), h("f", 1.0)] },
+    Cfg { name: "[terms kw, hist f/2]", sources: vec![t("k", "kw"), h("f", 2.0)] },
+    Cfg { name: "[terms kw, terms kw2]", sources: vec![t("k", "kw"), t("k2", "kw2")] },
+  ]
+}
+
+fn sub_aggs() -> BTreeMap<String, Aggregation> {
+  let v = json!({"vc": {"type": "value_count", "field": "f"}, "card": {"type": "cardinality", "field": "kw"}, "st": {"type": "stats", "field": "n"}});
+  serde_json::from_value(v).expect("sub aggs")
+}
+
+fn page(reader: &IndexReader, tmpl: &SearchRequest, n: usize, sources: &[CompositeSource], subs: &BTreeMap<String, Aggregation>, size: usize, after: Option<Value>) -> Result<(Vec<BucketResponse>, Option<Value>), String> {
+  let mut r = tmpl.clone();
+  r.limit = n.max(1);
+  r.aggs = BTreeMap::new();
+  r.aggs.insert("c".into(), Aggregation::Composite(Box::new(CompositeAggregation { sources: sources.to_vec(), size, after, sampling: None, aggs: subs.clone() })));
+  let res = search_caught(reader, &r)?;
+  match res.aggregations.get("c") {
+    Some(AggregationResponse::Composite { buckets, after_key, .. }) => Ok((buckets.clone(), after_key.clone())),
+    other => Err(format!("response is not a composite aggregation: {other:?}")),
+  }
+}
+
+fn brief(b: &[BucketResponse]) -> String {
+  let v: Vec<String> = b.iter().map(|x| format!("{}:{}", x.key, x.doc_count)).collect();
+  format!("[{}]", v.join(", "))
+}
+
+/// Walk all pages of size `p`; Ok(number of pages) or Err(what is wrong).
+fn check_walk(reader: &IndexReader, tmpl: &SearchRequest, n: usize, sources: &[CompositeSource], subs: &BTreeMap<String, Aggregation>, p: usize, full: &[BucketResponse]) -> Result<usize, String> {
+  let mut got: Vec<BucketResponse> = Vec::new();
+  let mut after: Option<Value> = None;
+  let mut pages = 0usize;
+  let mut trail: Vec<String> = Vec::new();
+  loop {
+    let (b, ak) = page(reader, tmpl, n, sources, subs, p, after.clone()).map_err(|e| format!("page {} (after={}) failed: {e}", pages + 1, json!(after)))?;
+    pages += 1;
+    trail.push(format!("{} after_key={}", brief(&b), json!(ak)));
+    if b.len() > p {
+      return Err(format!("page {pages} has {} buckets for size {p}; pages: {trail:?}", b.len()));
+    }
+    got.extend(b.iter().cloned());
+    match ak {
+      None => break,
+      Some(k) => {
+        if b.is_empty() {
+          return Err(format!("page {pages} is empty but carries after_key {k}; pages: {trail:?}"));
+        }
+        after = Some(k);
+      }
+    }
+    if pages > full.len() + 2 {
+      return Err(format!("the walk does not end after {pages} pages for {} buckets; pages: {trail:?}", full.len()));
+    }
+  }
+  if got != full {
+    let (a, b) = (serde_json::to_value(&got).unwrap(), serde_json::to_value(full).unwrap());
+    if let Some(d) = diff(&a, &b, "") {
+      return Err(format!("concatenated pages differ from the unpaged buckets at {d}; paged {} vs unpaged {}; pages: {trail:?}", brief(&got), brief(full)));
+    }
+  }
+  Ok(pages)
+}
+
+struct Out {
+  fails: Vec<(String, Value)>,
+  more: u64,
+  evals: u64,
+  worlds: u64,
+  nontrivial: u64,
+  empty_full: u64,
+  outcomes: BTreeSet<String>,
+}
+
+fn check_corpus(shape_idx: &[usize], queries: &[QSpec], tmpls: &[SearchRequest], cfgs: &[Cfg], subs: &BTreeMap<String, Aggregation>) -> Out {
+  let mut out = Out { fails: vec![], more: 0, evals: 0, worlds: 0, nontrivial: 0, empty_full: 0, outcomes: BTreeSet::new() };
+  let n = shape_idx.len();
+  for (deleted, layouts) in layout_groups(n) {
+    for layout in &layouts {
+      let world = mk_world(shape_idx, layout, &deleted);
+      let idx = world.build();
+      let reader = idx.reader().expect("reader");
+      out.worlds += 1;
+      for (qi, q) in queries.iter().enumerate() {
+        for cfg in cfgs {
+          let fail = |out: &mut Out, p: usize, what: String| {
+            if out.fails.len() < 3 {
+              out.fails.push((
+                format!("docs={} layout={:?} deleted={:?} query={} sources={} page_size={}: {}", json!(world.docs), layout, deleted, q.name, cfg.name, p, what),
+                json!({"engine": "inputmc-composite", "world": world.to_json(), "query": q.to_json(), "sources": serde_json::to_value(&cfg.sources).unwrap(), "page_size": p}),
+              ));
+            } else {
+              out.more += 1;
+            }
+          };
+          let full = match page(&reader, &tmpls[qi], n, &cfg.sources, subs, 10_000, None) {
+            Ok((b, None)) => b,
+            Ok((b, Some(k))) => {
+              out.evals += 1;
+              fail(&mut out, 10_000, format!("the unpaged request (size 10000, {} buckets) carries after_key {k}", b.len()));
+              continue;
+            }
+            Err(e) => {
+              out.evals += 1;
+              fail(&mut out, 10_000, format!("unpaged request failed: {e}"));
+              continue;
+            }
+          };
+          if full.is_empty() {
+            out.empty_full += 1;
+          }
+          for p in 1..=5usize {
+            out.evals += 1;
+            match check_walk(&reader, &tmpls[qi], n, &cfg.sources, subs, p, &full) {
+              Ok(pages) => {
+                if pages >= 3 {
+                  out.nontrivial += 1;
+                }
+                out.outcomes.insert(format!("{}buckets/{}pages", full.len(), pages));
+              }
+              Err(what) => {
+                out.outcomes.insert("FAIL".into());
+                fail(&mut out, p, what)
+              }
+            }
+          }
+        }
+      }
+    }
+  }
+  out
+}
+
+fn replay_once(cs: &Value) -> Option<String> {
+  let world = World::from_json(&cs["world"]);
+  let q = QSpec::from_json(&cs["query"]);
+  let sources: Vec<CompositeSource> = serde_json::from_value(cs["sources"].clone()).expect("sources");
+  let p = cs["page_size"].as_u64().unwrap_or(1) as usize;
+  let idx = world.build();
+  let reader = idx.reader().expect("reader");
+  let subs = sub_aggs();
+  let n = world.docs.len();
+  let tmpl = q.template();
+  let full = match page(&reader, &tmpl, n, &sources, &subs, 10_000, None) {
+    Ok((b, None)) => b,
+    Ok((_, Some(k))) => return Some(format!("the unpaged request carries after_key {k}")),
+    Err(e) => return Some(format!("unpaged request failed: {e}")),
+  };
+  if p >= 10_000 {
+    return None;
+  }
+  check_walk(&reader, &tmpl, n, &sources, &subs, p, &full).err()
+}
+
+pub fn run(ctx: &Ctx) -> i32 {
+  let mut rep = Reporter::new("C30", ctx.tier, "exploration");
+  let quick = ctx.tier.is_quick();
+  if let Some(path) = &ctx.replay {
+    rep.set_replaying(true);
+    return replay_with("C30", path, &replay_once);
+  }
+  let queries = c12_queries();
+  let tmpls: Vec<SearchRequest> = queries.iter().map(|q| q.template()).collect();
+  let cfgs = configs();
+  let subs = sub_aggs();
+  // canary: the comparison must reject a bucket list that lost its first bucket
+  {
+    let world = mk_world(&[0, 1, 2], &[2, 1], &[]);
+    let idx = world.build();
+    let reader = idx.reader().expect("reader");
+    let (full, _) = page(&reader, &tmpls[0], 3, &cfgs[0].sources, &subs, 10_000, None).unwrap_or_default();
+    if full.len() < 2 || check_walk(&reader, &tmpls[0], 3, &cfgs[0].sources, &subs, 1, &full).is_err() || check_walk(&reader, &tmpls[0], 3, &cfgs[0].sources, &subs, 1, &full[1..]).is_ok() {
+      vcore::ev::machinery_failure("C30: canary walk comparison did not behave as expected");
+    }
+  }
+  let mut all: Vec<Vec<usize>> = Vec::new();
+  let plan = if quick {
+    all.extend(corpora(8, 1, 3));
+    all.extend(corpora(5, 4, 4));
+    "len<=3 over 8 shapes, len 4 over 5"
+  } else {
+    all.extend(corpora(10, 1, 4));
+    all.extend(corpora(6, 5, 5));
+    "len<=4 over 10 shapes, len 5 over 6"
+  };
+  let deadline = if quick { 33.0 } else { 840.0 };
+  let (mut evals, mut worlds, mut nontrivial, mut empty_full, mut done) = (0u64, 0u64, 0u64, 0u64, 0usize);
+  let mut outcomes: BTreeSet<String> = BTreeSet::new();
+  let mut timed_out = false;
+  for chunk in all.chunks(128) {
+    if rep.elapsed_s() > deadline {
+      timed_out = true;
+      break;
+    }
+    let outs: Vec<Out> = chunk.par_iter().map(|c| check_corpus(c, &queries, &tmpls, &cfgs, &subs)).collect();
+    done += chunk.len();
+    for o in outs {
+      let first = o.fails.first().cloned();
+      for (what, case) in o.fails {
+        rep.fail(None, &what, case);
+      }
+      for _ in 0..o.more {
+        match &first {
+          Some(w) if rep.violations() < 6 => rep.fail(None, &w.0, w.1.clone()),
+          _ => rep.fail(None, "(further failing walk in the same corpus)", json!({})),
+        }
+      }
+      evals += o.evals;
+      worlds += o.worlds;
+      nontrivial += o.nontrivial;
+      empty_full += o.empty_full;
+      outcomes.extend(o.outcomes);
+    }
+  }
+  rep.add_evals(evals);
+  rep.sample(json!({"corpus_shapes": all.get(all.len() / 2), "sources": cfgs.iter().map(|c| c.name).collect::<Vec<_>>(), "page_sizes": [1, 2, 3, 4, 5], "sub_aggs": ["value_count f", "cardinality kw", "stats n"]}));
+  if outcomes.len() < 2 {
+    vcore::ev::machinery_failure("C30: fewer than two distinct outcomes observed");
+  }
+  let cov = vcore::cov! {
+    "distinct_nontrivial" => nontrivial,
+    "rule" => "case = (corpus = sequence of document shapes, deletion set, segment layout, query, composite source list, page size 1..5); non-trivial when the walk has at least 3 pages. Oracle: concatenated pages == buckets of the size-10000 request (keys, order, doc_counts, sub-aggregations value_count/cardinality/stats); pages carrying after_key are non-empty and at most page-size long; the walk ends; the unpaged request has no after_key.",
+    "corpora" => done,
+    "corpora_planned" => all.len(),
+    "corpus_plan" => plan,
+    "worlds" => worlds,
+    "queries" => queries.len(),
+    "source_lists" => cfgs.len(),
+    "walks_over_an_empty_bucket_list" => empty_full,
+    "distinct_observed_outcomes" => outcomes.len(),
+    "cap_hit" => if timed_out { Some(format!("wall budget {deadline}s")) } else { None },
+    "exhaustive" => !timed_out,
+  };
+  rep.finish(cov, vec![
+    "a trailing empty page without after_key would be accepted (the statement only requires after_key to be absent exactly on the last page)".into(),
+    "histogram sources over the i64 field currently produce no buckets at all (C12 finding C12-composite-histogram-source-ignores-i64-field); paged and unpaged agree on the empty list, so those walks are trivially complete and are counted in walks_over_an_empty_bucket_list".into(),
+    "the value of after_key is not constrained beyond being accepted as `after`".into(),
+  ])
 }
